@@ -341,5 +341,5 @@ MUTANTS = [
     dict(id="C09-M9", file=_LA, old="        if ctx.needs_input_grad[1]:\n            grad_weight = grad_output.transpose(-1, -2).matmul(input)", new="        if ctx.needs_input_grad[1]:\n            grad_weight = grad_output.transpose(-1, -2).matmul(weight)", rule="R-C09-3", what="weight gradient built from the weight"),
 ]
 TWINS = [
-    dict(id="C09-T1", file=_DN, old="        out = torch.sum(\n            trunk_out * self.branch.current_out.unsqueeze(1), dim=-1\n        )", new="        branch_out = self.branch.current_out.unsqueeze(1)\n        out = (branch_out * trunk_out).sum(dim=-1)", what="method form, commuted"),
+    dict(id="C09-T1", file=_DN, old="        out = torch.sum(trunk_out * self.branch.current_out.unsqueeze(1), dim=-1)", new="        branch_out = self.branch.current_out.unsqueeze(1)\n        out = (branch_out * trunk_out).sum(dim=-1)", what="method form, commuted"),
 ]
